@@ -69,29 +69,50 @@ def r1(p, rep):
         raise AnalysisError(f"unrecognised idiom: _get lacks the {sorted(missing)} arm(s)")
 
 
+def _registered_later(call):
+    """`b = pending.create()` ... `self._register(b)` in the same block"""
+    st = next((x for x in parents(call) if isinstance(x, ast.stmt)), None)
+    if not (isinstance(st, ast.Assign) and len(st.targets) == 1 and isinstance(st.targets[0], ast.Name)):
+        return False
+    nm = st.targets[0].id
+    fn = next((x for x in parents(call) if isinstance(x, (ast.FunctionDef, ast.AsyncFunctionDef))), None)
+    return fn is not None and any(isinstance(c, ast.Call) and norm(c.func).endswith("._register") and any(isinstance(a, ast.Name) and a.id == nm for a in c.args) for c in ast.walk(fn))
+
+
 def r2(p, rep):
     rep.rule("C11.R2", "a failing backend hurts only when it is selected", "T-DOM", floor=5)
-    f = p.func("BackendRegistryState._run_factory", "frontend.backend")
-    fparam = f.params[-1]
-    calls = [n for n in walk_no_nested(f.node) if isinstance(n, ast.Call) and isinstance(n.func, ast.Name) and n.func.id == fparam]
-    if not calls:
-        raise AnalysisError("unrecognised idiom: _run_factory does not call its factory parameter")
-    for c in calls:
-        tries = list(common.enclosing_tries(c))
-        ok = False
-        why = "the factory call is not inside try/except Exception"
-        for t in tries:
-            for h in t.handlers:
-                catches = h.type is None or (isinstance(h.type, ast.Name) and h.type.id in ("Exception", "BaseException"))
-                builds = any(isinstance(x, ast.Call) and norm(x.func).endswith("InvalidBackend") for st in h.body for x in ast.walk(st))
-                if catches and builds and not common.block_always_raises(h.body):
-                    ok, why = True, "a failing factory is caught and replaced by an InvalidBackend"
-        rep.add("C11.R2", f"{f.qualname}:factory-isolated", f"{f.module.rel}:{c.lineno}", ok, why)
-    cfg = CFG(f.node)
-    regs = [n for n in walk_no_nested(f.node) if isinstance(n, ast.Call) and norm(n.func).endswith("._register")]
-    pdom = cfg.postdominators(exits=[cfg.exit])
-    ok = any(cfg.node_for(r) is not None and cfg.node_for(r).id in pdom[cfg.entry.id] for r in regs)
-    rep.add("C11.R2", f"{f.qualname}:registered-either-way", f.loc, ok, "the (valid or invalid) backend is registered on every path" if ok else "a failing factory leaves its backend unregistered: its name is then unknown instead of raising ImportBackendError when selected")
+    # where a registered factory is run (by role, wherever that code lives): a `try` whose handler catches every
+    # Exception and builds an InvalidBackend; its body holds the factory call
+    bm = p.module("frontend.backend")
+    sites = []
+    for f in p.funcs.values():
+        if f.module is not bm or not isinstance(f.node, (ast.FunctionDef, ast.AsyncFunctionDef)):
+            continue
+        for t in walk_no_nested(f.node):
+            if isinstance(t, ast.Try):
+                for h in t.handlers:
+                    catches = h.type is None or (isinstance(h.type, ast.Name) and h.type.id in ("Exception", "BaseException"))
+                    builds = any(isinstance(x, ast.Call) and norm(x.func).endswith("InvalidBackend") for st in h.body for x in ast.walk(st))
+                    if catches and builds:
+                        sites.append((f, t, h))
+    if not sites:
+        raise AnalysisError("unrecognised idiom: no `try: <factory>() except Exception: InvalidBackend(...)` in frontend/backend.py")
+    for f, t, h in sites:
+        calls = [c for st in t.body for c in ast.walk(st) if isinstance(c, ast.Call)]
+        ok = bool(calls) and not common.block_always_raises(h.body)
+        rep.add("C11.R2", f"{f.qualname}:factory-isolated", f"{f.module.rel}:{t.lineno}", ok, "a failing factory is caught and replaced by an InvalidBackend" if ok else "the handler re-raises: one failing factory makes every lookup fail")
+        cfg = CFG(f.node)
+        regs = [n for n in walk_no_nested(f.node) if isinstance(n, ast.Call) and norm(n.func).endswith("._register")]
+        pdom = cfg.postdominators(exits=[cfg.exit])
+        ok = any(cfg.node_for(r) is not None and cfg.node_for(r).id in pdom[cfg.entry.id] for r in regs)
+        if not ok and not regs:
+            # the function hands the (valid or invalid) backend back: every caller registers what it gets
+            rets_all = [r for r in walk_no_nested(f.node) if isinstance(r, ast.Return)]
+            returns_value = bool(rets_all) and all(r.value is not None for r in rets_all) and any(isinstance(r, ast.Return) for st in h.body for r in ast.walk(st))
+            users = [c for g in p.funcs.values() if g.module is bm for c in walk_no_nested(g.node) if isinstance(c, ast.Call) and isinstance(c.func, ast.Attribute) and c.func.attr == f.name]
+            registered = bool(users) and all(any(isinstance(par, ast.Call) and norm(par.func).endswith("._register") for par in parents(c)) or _registered_later(c) for c in users)
+            ok = returns_value and registered
+        rep.add("C11.R2", f"{f.qualname}:registered-either-way", f.loc, ok, "the (valid or invalid) backend is registered on every path" if ok else "a failing factory leaves its backend unregistered: its name is then unknown instead of raising ImportBackendError when selected")
     inv = p.cls("InvalidBackend", "frontend.backend")
     m = inv.methods.get("is_supported_tensor")
     rets = [r for r in walk_no_nested(m.node) if isinstance(r, ast.Return)] if m else []
@@ -227,6 +248,22 @@ def backend_tables(p):
                         amap.setdefault(q, d)
                     from .elempreds import rename
 
+                    # a factory of factories: `create_backend = _default_backend_creator("numpy", ..., priority=-1)`; the
+                    # helper defines the real factory as a closure and returns it
+                    if len(hbody) == 2 and isinstance(hbody[0], ast.FunctionDef) and isinstance(hbody[1], ast.Return) and isinstance(hbody[1].value, ast.Name) and hbody[1].value.id == hbody[0].name:
+                        for c0 in ast.walk(hbody[0]):
+                            if isinstance(c0, ast.Call):
+                                rr = resolve_callee(p, c0, h.module)
+                                if rr and rr[0] == "class" and rr[1].name == "Backend":
+                                    c2 = rename(c0, amap)
+                                    for x in ast.walk(c2):
+                                        if hasattr(x, "lineno"):
+                                            x.lineno = n.lineno
+                                    c2._parent = getattr(n, "_parent", None)
+                                    for k in c2.keywords:
+                                        if k.arg == "name":
+                                            k.value = _as_const(m, k.value)
+                                    ctors.append(c2)
                     if len(hbody) == 1 and isinstance(hbody[0], ast.Return) and isinstance(hbody[0].value, ast.Call):
                         rr = resolve_callee(p, hbody[0].value, h.module)
                         if rr and rr[0] == "class" and rr[1].name == "Backend":
